@@ -186,13 +186,20 @@ def run_ptb(spec, R, rng, path):
                 continue
             R.count('read_ptb:incomplete-lines')
             R.case(stable_hash(('ptb-incomplete', v)), True)
+            after_complete = rng.random() < 0.3      # the incomplete line may follow complete ones in the same file
             with open(path, 'w', encoding='utf-8') as f:
-                f.write(v + '\n')
+                f.write((line + '\n' if after_complete else '') + v + '\n')
             try:
                 got = list(read_ptb(path))
             except Exception:
                 R.count('read_ptb:incomplete-rejected')
                 continue
+            if after_complete:
+                got = got[1:]
+                if not got:
+                    R.violation('read_ptb:partial-accepted', f'incomplete line {v!r} after a complete line was passed over without an error',
+                                {'line': line, 'variant': v, 'after_complete_line': True})
+                    continue
             if got:
                 R.violation('read_ptb:partial-accepted', f'incomplete line {v!r} (from {line!r}) was read as a tree with '
                             f'{len(got[0].tree.leaves)} leaves', {'line': line, 'variant': v})
